@@ -19,6 +19,14 @@
 //     (entity id, message) errors of the file with S contains an error carrying e's id (dimensions: "unknown") that the
 //     error multiset of the file with S minus all breaches touching e does not contain.
 //   * soft catalogue: the breach adds no error; where the validator has a rule, it adds a warning for the entity.
+//   * ALIAS range dimensions (second generation of entities, enumerated AFTER all cases of the first one so that the
+//     case numbers of the first generation do not move): every block of every file also holds a 1-D numeric array
+//     (Double; Int32 in a third of the blocks) with strictly ascending data, a label, an atomic SI unit and an alias range
+//     dimension (its ticks ARE the data, its unit IS the array's unit).  It is the LAST reference of the block's rank-1
+//     tag / multi-tag where the block has them and the ONLY reference of a dedicated tag and multi-tag (own positions
+//     and extents, feature data shared with the block's first tag; unit of the same family with another prefix).  Breaches: unsorted ticks through the PUBLIC
+//     API (DataArray::setData with the first / last two values swapped), tag / multi-tag unit not convertible from both
+//     sides (tag unit changed; array unit set to another SI base unit), descriptor count; soft: array unit removed.
 #include <nix.hpp>
 #include <nix/valid/validate.hpp>
 #include <hdf5.h>
@@ -38,11 +46,13 @@ struct DimSpec { DK kind; size_t len; std::string unit; bool labeled; };   // la
 struct ArrSpec {
     std::string name; int block; char role;   // 'P' primary, 'X' auxiliary reference target, 'p' positions, 'e' extents, 'f' feature data
     std::vector<DimSpec> dims; bool calib; std::string unit;
+    bool alias = false, i32 = false;   // role 'L': 1-D array whose only descriptor is an alias range dimension; stored as Int32
+    int gen = 0;                       // 0: first generation of entities, 1: added for the alias arrays (their sites come last)
 };
 struct FeatSpec { int arr; LinkType lt; };
 struct TagSpec {
     std::string name; int block; bool multi; std::vector<int> refs; std::vector<std::string> units;
-    int pos, ext; std::vector<FeatSpec> feats;
+    int pos, ext; std::vector<FeatSpec> feats; int gen = 0;
 };
 struct PropSpec { std::vector<std::string> path; std::string name; };
 struct FileSpec {
@@ -60,6 +70,7 @@ static std::string dfname(const ArrSpec &a, size_t p) { return "df_" + a.name + 
 static bool scalable(const ArrSpec &a) { for (auto &d : a.dims) if (d.kind != SAMP && d.kind != RANGE) return false; return true; }
 
 static std::string kinds_str(const ArrSpec &a) {
+    if (a.alias) return "(alias)";
     std::string s = "(";
     for (size_t p = 0; p < a.dims.size(); p++) s += std::string(p ? "," : "") + DKN[a.dims[p].kind];
     return s + ")";
@@ -164,12 +175,37 @@ static FileSpec make_spec(const FamEntry &fe, const std::vector<std::vector<DK>>
             gi++;
         }
     }
+    // ---- second generation: per block one alias array, last reference of the block's rank-1 tags, only reference of its own
+    for (int b = 0; b < fe.nblocks; b++) {
+        int x = fe.variant + b;
+        ArrSpec a; a.name = "al" + std::to_string(b); a.block = b; a.role = 'L'; a.calib = false; a.alias = true; a.gen = 1;
+        a.i32 = (x % 3 == 2);
+        a.unit = std::string(PRE[x % 3]) + FAM[0];
+        a.dims.push_back({RANGE, (size_t)(4 + x % 3), a.unit, false});
+        int al = (int)s.arrays.size(); s.arrays.push_back(a);
+        for (auto &t : s.tags) if (t.block == b && t.units.size() == 1) t.refs.push_back(al);
+        std::string sfx = "al" + std::to_string(b);
+        std::vector<size_t> pshape;
+        if (x & 1) pshape = {3, 1}; else pshape = {3};
+        int pos = (int)s.arrays.size(); s.arrays.push_back(small_set_array("pos" + sfx, b, 'p', pshape));
+        int ext = (int)s.arrays.size(); s.arrays.push_back(small_set_array("ext" + sfx, b, 'e', pshape));
+        s.arrays[pos].gen = s.arrays[ext].gen = 1;
+        int fd = -1;   // feature data: the block's first feature array (every block has one), no array of its own (cost of a validation run)
+        for (int k = 0; k < (int)s.arrays.size() && fd < 0; k++) if (s.arrays[k].block == b && s.arrays[k].role == 'f') fd = k;
+        std::vector<std::string> units = {std::string(PRE[(x + 1) % 3]) + FAM[0]};
+        TagSpec t; t.name = "tg" + sfx; t.block = b; t.multi = false; t.refs = {al}; t.units = units; t.pos = t.ext = -1; t.gen = 1;
+        t.feats.push_back({fd, LinkType::Untagged});
+        s.tags.push_back(t);
+        TagSpec m; m.name = "mt" + sfx; m.block = b; m.multi = true; m.refs = {al}; m.units = units; m.pos = pos; m.ext = ext; m.gen = 1;
+        m.feats.push_back({fd, LinkType::Indexed});
+        s.tags.push_back(m);
+    }
     s.props.push_back({{"meta"}, "p_gain"});
     s.props.push_back({{"meta"}, "p_times"});
     s.props.push_back({{"meta", "sub"}, "p_rate"});
     std::string d = std::to_string(fe.nblocks) + " block(s):";
     for (size_t k = 0; k < s.arrays.size(); k++)
-        if (s.arrays[k].role == 'P' || s.arrays[k].role == 'X') d += " " + s.arrays[k].name + "@b" + std::to_string(s.arrays[k].block) + kinds_str(s.arrays[k]);
+        if (s.arrays[k].role == 'P' || s.arrays[k].role == 'X' || s.arrays[k].role == 'L') d += " " + s.arrays[k].name + "@b" + std::to_string(s.arrays[k].block) + kinds_str(s.arrays[k]);
     d += "; " + std::to_string(s.tags.size()) + " tags/multi-tags, " + std::to_string(s.arrays.size()) + " arrays";
     s.desc = d;
     return s;
@@ -178,8 +214,29 @@ static FileSpec make_spec(const FamEntry &fe, const std::vector<std::vector<DK>>
 // ------------------------------------------------------------------------------------------------------------------
 // building the file through the public API
 // ------------------------------------------------------------------------------------------------------------------
+// the data (= ticks) of an alias array: strictly ascending, also negative values
+static std::vector<double> alias_data(const ArrSpec &a) {
+    std::vector<double> v;
+    for (size_t i = 0; i < a.dims[0].len; i++) v.push_back(a.i32 ? -3.0 + (double)(2 * i * i + i) : -1.5 + 1.25 * (double)i * (double)(i + 1));
+    return v;
+}
+
+template<typename T> static void write_alias_data(DataArray &da, const std::vector<double> &v) {
+    std::vector<T> w; for (double x : v) w.push_back((T)x);
+    da.setData(w);
+}
+
+template<typename T> static void swap_alias_data(DataArray &da, int variant) {
+    std::vector<T> d;
+    da.getData(d);
+    if (d.size() < 2) throw std::runtime_error("harness: alias array with fewer than two values");
+    if (variant == 0) std::swap(d[0], d[1]); else std::swap(d[d.size() - 2], d[d.size() - 1]);
+    da.setData(d);
+}
+
 static void append_dim(Block &blk, DataArray &da, const ArrSpec &a, size_t p) {
     const DimSpec &d = a.dims[p];
+    if (a.alias) { da.appendAliasRangeDimension(); return; }
     switch (d.kind) {
     case SAMP:
         da.appendSampledDimension(0.5 * (double)(p + 1), "time" + std::to_string(p), d.unit, (p % 2) ? -1.5 : 0.25);
@@ -237,12 +294,14 @@ static Built build_file(const FileSpec &s, const std::string &path) {
         Block blk = blocks[a.block];
         NDSize shape(a.dims.size());
         for (size_t p = 0; p < a.dims.size(); p++) shape[p] = a.dims[p].len;
-        DataArray da = blk.createDataArray(a.name, a.role == 'P' || a.role == 'X' ? "verif.signal" : "verif.aux", DataType::Double, shape);
-        da.label("value");
+        DataArray da = blk.createDataArray(a.name, a.role == 'P' || a.role == 'X' ? "verif.signal" : a.alias ? "verif.events" : "verif.aux",
+                                           a.i32 ? DataType::Int32 : DataType::Double, shape);
+        da.label(a.alias ? "event time" : "value");
         if (!a.unit.empty()) da.unit(a.unit);
+        if (a.alias) { if (a.i32) write_alias_data<int32_t>(da, alias_data(a)); else write_alias_data<double>(da, alias_data(a)); }
         if (a.calib) { da.polynomCoefficients({0.5, 2.0}); da.expansionOrigin(0.25); }
         for (size_t p = 0; p < a.dims.size(); p++) append_dim(blk, da, a, p);
-        if (a.role == 'P') { da.addSource(src[a.block]); da.metadata(sub); }
+        if (a.role == 'P' || a.role == 'L') { da.addSource(src[a.block]); da.metadata(sub); }
         B.arr.push_back(da.id());
     }
     for (size_t t = 0; t < s.tags.size(); t++) {
@@ -278,7 +337,8 @@ static Built build_file(const FileSpec &s, const std::string &path) {
 // breach catalogue
 // ------------------------------------------------------------------------------------------------------------------
 enum BK { B_FEWER, B_MORE, B_TICKS, B_LABELS, B_ROWS, B_UNSORTED, B_INTERVAL, B_TAGUNIT, B_REFUNIT, B_DELPOS, B_DELFEAT,
-          S_UNIT_NONE, S_UNIT_NONSI, S_COEFF, S_ORIGIN, S_OFFSET, S_PROP, X_DUPTICKS };
+          S_UNIT_NONE, S_UNIT_NONSI, S_COEFF, S_ORIGIN, S_OFFSET, S_PROP, X_DUPTICKS,
+          B_ALIAS_UNSORTED, B_ALIAS_UNIT };   // alias arrays: data overwritten with unsorted values; array unit (= dimension unit) changed
 
 struct Ent { char kind; int a, p; };   // 'A' array a | 'D' dimension p of array a | 'T' tag a | 'F' feature p of tag a | 'P' property a
 
@@ -302,7 +362,7 @@ static std::string arr_ctx(const FileSpec &s, int a) {
     return std::string("array ") + A.name + " [role " + A.role + ", block " + std::to_string(A.block) + ", " + kinds_str(A) + "]";
 }
 static std::string dim_ctx(const FileSpec &s, int a, int p) {
-    return "dimension " + std::to_string(p + 1) + "/" + std::to_string(s.arrays[a].dims.size()) + " (" + DKN[s.arrays[a].dims[p].kind] + ") of " + arr_ctx(s, a);
+    return "dimension " + std::to_string(p + 1) + "/" + std::to_string(s.arrays[a].dims.size()) + " (" + (s.arrays[a].alias ? "alias range" : DKN[s.arrays[a].dims[p].kind]) + ") of " + arr_ctx(s, a);
 }
 static std::string tag_ctx(const FileSpec &s, int t) {
     const TagSpec &T = s.tags[t];
@@ -311,7 +371,9 @@ static std::string tag_ctx(const FileSpec &s, int t) {
     return std::string(T.multi ? "multi-tag " : "tag ") + T.name + " [block " + std::to_string(T.block) + ", " + std::to_string(T.units.size()) + " units, refs " + r + "]";
 }
 
-static std::vector<Site> make_sites(const FileSpec &s) {
+// sites of the first generation of entities first (in the order they always had), then those of the second generation;
+// *n_first = number of sites of the first generation
+static std::vector<Site> make_sites(const FileSpec &s, int *n_first = nullptr) {
     std::vector<Site> out;
     auto add = [&](BK k, int cat, bool warn, int a, int p, int t, int v, const std::string &name, const std::string &desc,
                    std::vector<Ent> br, std::vector<std::string> wr, std::vector<std::string> rm, int phase) {
@@ -321,14 +383,24 @@ static std::vector<Site> make_sites(const FileSpec &s) {
         out.push_back(x);
     };
     const int na = (int)s.arrays.size();
+    for (int gen = 0; gen < 2; gen++) {
     // ---- hard: per array and per dimension
     for (int a = 0; a < na; a++) {
         const ArrSpec &A = s.arrays[a];
+        if (A.gen != gen) continue;
         int rank = (int)A.dims.size();
         add(B_FEWER, 0, false, a, -1, -1, 0, "one descriptor fewer than the data rank", "last descriptor removed from " + arr_ctx(s, a),
             {{'A', a, 0}}, {akey(a) + "ndims"}, {dkey(a, rank - 1)}, 0);
         add(B_MORE, 0, false, a, -1, -1, a % 2, std::string("one descriptor more than the data rank (extra ") + (a % 2 ? "sampled" : "set") + ")",
             "extra descriptor appended to " + arr_ctx(s, a), {{'A', a, 0}}, {akey(a) + "ndims"}, {}, 0);
+        if (A.alias) {
+            // the ticks are the data: their number cannot differ from the data length; unsorted ticks need no HDF5 access
+            for (int v = 0; v < 2; v++)
+                add(B_ALIAS_UNSORTED, 0, false, a, 0, -1, v, std::string("alias dimension: unsorted ticks (") + (v ? "last two swapped" : "first two swapped") + ", DataArray::setData)",
+                    std::string("data overwritten with DataArray::setData, ") + (v ? "last two values swapped" : "first two values swapped") + " (" + (A.i32 ? "Int32" : "Double") + ") at " + dim_ctx(s, a, 0),
+                    {{'D', a, 0}}, {dkey(a, 0) + "order"}, {}, 1);
+            continue;
+        }
         for (int p = 0; p < rank; p++) {
             DK k = A.dims[p].kind;
             bool main = A.role == 'P' || A.role == 'X';
@@ -361,19 +433,29 @@ static std::vector<Site> make_sites(const FileSpec &s) {
     // ---- hard: tag units, from the tag side and from the side of the referenced dimension
     for (int t = 0; t < (int)s.tags.size(); t++) {
         const TagSpec &T = s.tags[t];
+        if (T.gen != gen) continue;
+        bool only_alias = T.refs.size() == 1 && s.arrays[T.refs[0]].alias;
         for (int p = 0; p < (int)T.units.size(); p++)
             for (int v = 0; v < 2; v++) {
                 std::string nu = v == 0 ? "K" : T.units[p] + "^2";
-                add(B_TAGUNIT, 0, false, -1, p, t, v, std::string(T.multi ? "multi-tag" : "tag") + " unit not convertible (" + (v ? "other power" : "other base unit") + ")",
+                add(B_TAGUNIT, 0, false, -1, p, t, v, std::string(T.multi ? "multi-tag" : "tag") + (only_alias ? " on an alias array:" : "") + " unit not convertible (" + (v ? "other power" : "other base unit") + ")",
                     "unit " + std::to_string(p + 1) + "/" + std::to_string(T.units.size()) + " of " + tag_ctx(s, t) + " set to " + nu,
                     {{'T', t, 0}}, {"T" + std::to_string(t) + ".u" + std::to_string(p)}, {}, 1);
             }
     }
     for (int a = 0; a < na; a++) {
+        if (s.arrays[a].gen != gen) continue;
         std::vector<Ent> tg;
         for (int t = 0; t < (int)s.tags.size(); t++)
             if (std::find(s.tags[t].refs.begin(), s.tags[t].refs.end(), a) != s.tags[t].refs.end()) tg.push_back({'T', t, 0});
         if (tg.empty()) continue;
+        if (s.arrays[a].alias) {
+            // the unit of an alias dimension is the unit of its array
+            add(B_ALIAS_UNIT, 0, false, a, 0, -1, 0, "referenced alias array's unit changed to one the tag units cannot be converted to",
+                "unit of " + arr_ctx(s, a) + " set to cd with DataArray::unit (referenced by " + std::to_string(tg.size()) + " tags/multi-tags)",
+                tg, {akey(a) + "unit", dkey(a, 0) + "unit"}, {}, 1);
+            continue;
+        }
         for (int p = 0; p < (int)s.arrays[a].dims.size(); p++)
             add(B_REFUNIT, 0, false, a, p, -1, 0, "referenced dimension's unit changed to one the tag units cannot be converted to",
                 "unit of " + dim_ctx(s, a, p) + " set to cd (referenced by " + std::to_string(tg.size()) + " tags/multi-tags)",
@@ -381,10 +463,11 @@ static std::vector<Site> make_sites(const FileSpec &s) {
     }
     // ---- hard: deleted positions / feature data
     for (int t = 0; t < (int)s.tags.size(); t++)
-        if (s.tags[t].multi)
+        if (s.tags[t].multi && s.tags[t].gen == gen)
             add(B_DELPOS, 0, false, s.tags[t].pos, -1, t, 0, "multi-tag whose positions array was deleted",
                 "positions array " + s.arrays[s.tags[t].pos].name + " of " + tag_ctx(s, t) + " deleted", {{'T', t, 0}}, {}, {akey(s.tags[t].pos)}, 2);
     for (int a = 0; a < na; a++) {
+        if (s.arrays[a].gen != gen) continue;
         std::vector<Ent> fe;
         for (int t = 0; t < (int)s.tags.size(); t++)
             for (int k = 0; k < (int)s.tags[t].feats.size(); k++)
@@ -396,6 +479,13 @@ static std::vector<Site> make_sites(const FileSpec &s) {
     // ---- soft
     for (int a = 0; a < na; a++) {
         const ArrSpec &A = s.arrays[a];
+        if (A.gen != gen) continue;
+        if (A.alias) {
+            // (a non-SI unit is refused by DataArray::unit for an array with an alias dimension: not injectable)
+            add(S_UNIT_NONE, 1, false, a, -1, -1, 0, "alias array unit missing", "unit removed (DataArray::unit(none)) from " + arr_ctx(s, a), {{'A', a, 0}},
+                {akey(a) + "unit", dkey(a, 0) + "unit"}, {}, 1);
+            continue;
+        }
         if (A.role != 'P' && A.role != 'X') continue;
         add(S_UNIT_NONE, 1, false, a, -1, -1, 0, "array unit missing", "unit removed from " + arr_ctx(s, a), {{'A', a, 0}}, {akey(a) + "unit"}, {}, 1);
         add(S_UNIT_NONSI, 1, true, a, -1, -1, 0, "array unit not SI", "unit of " + arr_ctx(s, a) + " set to furlong", {{'A', a, 0}}, {akey(a) + "unit"}, {}, 1);
@@ -408,9 +498,12 @@ static std::vector<Site> make_sites(const FileSpec &s) {
                 add(S_OFFSET, 1, true, a, p, -1, 0, "sampled offset without unit", "unit removed (offset kept) at " + dim_ctx(s, a, p),
                     {{'D', a, p}}, {dkey(a, p) + "unit"}, {}, 1);
     }
-    for (int i = 0; i < (int)s.props.size(); i++)
-        add(S_PROP, 1, true, i, -1, -1, 0, "property values without unit", "unit removed from property " + s.props[i].name, {{'P', i, 0}},
-            {"P" + std::to_string(i) + ".unit"}, {}, 1);
+    if (gen == 0)
+        for (int i = 0; i < (int)s.props.size(); i++)
+            add(S_PROP, 1, true, i, -1, -1, 0, "property values without unit", "unit removed from property " + s.props[i].name, {{'P', i, 0}},
+                {"P" + std::to_string(i) + ".unit"}, {}, 1);
+    if (gen == 0 && n_first) *n_first = (int)out.size();
+    }
     return out;
 }
 
@@ -427,6 +520,7 @@ static bool conflict(const FileSpec &s, const Site &x, const Site &y) {
         const TagSpec &T = s.tags[u.t];
         bool refd = std::find(T.refs.begin(), T.refs.end(), w.a) != T.refs.end();
         if (w.kind == S_OFFSET && refd && w.p == u.p) return true;                                          // the dimension has no unit any more
+        if (w.kind == S_UNIT_NONE && w.a >= 0 && s.arrays[w.a].alias && refd && u.p == 0) return true;      // the same for an alias dimension
         if (w.kind == B_FEWER && refd && T.refs.size() == 1 && u.p == (int)T.units.size() - 1) return true; // the dimension is gone
     }
     return false;
@@ -471,6 +565,11 @@ static void apply_api(File &f, const FileSpec &s, const Site &x) {
             df.rows(x.v == 0 ? df.rows() - 1 : df.rows() + 1);
         }
         break;
+    case B_ALIAS_UNSORTED: {
+        // the only way to unsorted ticks through the public API: the ticks of an alias dimension are the array's data
+        if (s.arrays[x.a].i32) swap_alias_data<int32_t>(da, x.v); else swap_alias_data<double>(da, x.v);
+        break; }
+    case B_ALIAS_UNIT: da.unit("cd"); break;
     case B_TAGUNIT: {
         const TagSpec &T = s.tags[x.t];
         std::vector<std::string> u = T.units;
@@ -699,6 +798,7 @@ static void check_set(const FileCtx &c, const std::vector<int> &S, const Res &fu
         }
     }
     vf::distinct("outcomes", outcome);
+    if (vf::opt.only >= 0) fprintf(stderr, "  %s\n      => %s\n", inst.c_str(), outcome.c_str());
 }
 
 static std::string jres(const Res &r) {
@@ -723,25 +823,32 @@ int main(int argc, char **argv) {
     long tot_sites = 0, tot_pairs = 0;
     std::set<int> combos_seen;
 
+    // pass 0: the sites of the first generation of entities (case numbers as before the alias arrays were added);
+    // pass 1: the sites of the alias arrays and of the entities created for them
+    for (int pass = 0; pass < 2; pass++)
     for (size_t fi = 0; fi < fam.size(); fi++) {
+        if (vf::deadline_hit()) break;
         FileSpec spec = make_spec(fam[fi], C);
-        std::vector<Site> sites = make_sites(spec);
+        int n_first = 0;
+        std::vector<Site> sites = make_sites(spec, &n_first);
         const int N = (int)sites.size();
+        const int lo = pass == 0 ? 0 : n_first, hi = pass == 0 ? n_first : N;
         const bool all_pairs = fi < QUICK_FILES;   // thorough: every pair on the quick family, related pairs on the rest
         if (count_only) {
+            if (pass) continue;
             long np = 0, nr = 0;
             for (int i = 0; i < N; i++) for (int j = i + 1; j < N; j++) {
                 if (!sites[i].primary || !sites[j].primary || sites[i].cat == 2 || sites[j].cat == 2 || (sites[i].cat == 1 && sites[j].cat == 1) || conflict(spec, sites[i], sites[j])) continue;
                 np++; if (relation(spec, sites[i], sites[j]) != "unrelated entities") nr++;
             }
-            fprintf(stderr, "file %zu: %zu arrays %zu tags %d sites, pairs %ld related %ld | %s\n", fi, spec.arrays.size(), spec.tags.size(), N, np, nr, spec.desc.c_str());
+            fprintf(stderr, "file %zu: %zu arrays %zu tags %d sites (%d for the alias arrays), pairs %ld related %ld | %s\n", fi, spec.arrays.size(), spec.tags.size(), N, N - n_first, np, nr, spec.desc.c_str());
             tot_sites += N; tot_pairs += all_pairs ? np : nr;
             continue;
         }
-        for (int c0 = 0; c0 < N; c0 += CH) {
+        for (int c0 = lo; c0 < hi; c0 += CH) {
             long ci = idx++;
             if (!vf::take_case(ci)) continue;
-            vf::case_desc("file " + std::to_string(fi) + " {" + spec.desc + "}, breaches " + std::to_string(c0) + ".." + std::to_string(std::min(N, c0 + CH) - 1) +
+            vf::case_desc("file " + std::to_string(fi) + " {" + spec.desc + "}, breaches " + std::to_string(c0) + ".." + std::to_string(std::min(hi, c0 + CH) - 1) +
                           " of " + std::to_string(N) + (thorough ? " alone and paired with every later breach" : " alone") + "; first: " + sites[c0].desc);
             // ---- (re)build the base file of this process
             if (ctx.fi != (long)fi) {
@@ -764,6 +871,11 @@ int main(int argc, char **argv) {
                 vf::count("conforming_files");
                 vf::count("entities_in_conforming_files", (long)(spec.arrays.size() + spec.tags.size() + spec.props.size()));
                 for (int c : fam[fi].combos) vf::distinct("descriptor_kind_combinations", std::to_string(c));
+                for (auto &a : spec.arrays) if (a.alias) {
+                    vf::count("alias_arrays_in_conforming_files");
+                    int nt = 0; for (auto &t : spec.tags) if (std::find(t.refs.begin(), t.refs.end(), (int)(&a - &spec.arrays[0])) != t.refs.end()) nt++;
+                    vf::distinct("alias_array_variants", std::string(a.i32 ? "Int32" : "Double") + ", " + std::to_string(a.dims[0].len) + " values, unit " + a.unit + ", referenced by " + std::to_string(nt) + " tags/multi-tags");
+                }
                 if (!ctx.e0.exc.empty())
                     vf::violation("C19|File::validate|k=0|conforming file|validate threw", "file " + std::to_string(fi) + " {" + spec.desc + "}: " + ctx.e0.exc + ": " + ctx.e0.what);
                 else if (!ctx.e0.err.empty()) {
@@ -785,13 +897,14 @@ int main(int argc, char **argv) {
                 }
                 return &ctx.single[i];
             };
-            for (int i = c0; i < std::min(N, c0 + CH); i++) {
+            for (int i = c0; i < std::min(hi, c0 + CH); i++) {
                 const Res *ri = single(i);
                 if (ri->exc == "harness") continue;
                 vf::count("single_breaches");
                 vf::count(sites[i].cat == 0 ? "single_hard" : sites[i].cat == 1 ? "single_soft" : "single_stat");
                 vf::distinct("breach_kinds", sites[i].name);
                 check_set(ctx, {i}, *ri, ctx.e0, {&ctx.e0});
+                if (fi == 2 && sites[i].kind == B_ALIAS_UNSORTED) vf::sample("{\"file\":" + vf::jstr(spec.desc) + ",\"k\":1,\"breach\":" + vf::jstr(sites[i].desc) + ",\"result\":" + jres(*ri) + "}", 8);
                 if (fi == 2 && i < 3) vf::sample("{\"file\":" + vf::jstr(spec.desc) + ",\"k\":1,\"breach\":" + vf::jstr(sites[i].desc) + ",\"result\":" + jres(*ri) + "}", 8);
                 if (!thorough) continue;
                 if (sites[i].cat == 2 || !sites[i].primary) continue;   // pairs: primary variants only
